@@ -52,6 +52,37 @@ theorem completion (env : Env) (cfg : Cfg) (hw : env.w = World.std) (hfl : C14.F
   push_cast
   linarith
 
+/-- `completion` for a rounding that is exact only up to `B`, with at most `B` chips on the table -/
+theorem completion_B (env : Env) (cfg : Cfg) (hw : env.w = World.std) {B : Int} (hfl : C14.FlSpecB B env.fl)
+    (hv : cfg.Valid) (hB : sumI cfg.startingStacks ≤ B) {s : State} (h : Reachable env cfg s)
+    (hc : s.complete = true) :
+    ∃ pay rake, s.payouts = some pay ∧ s.rakePaid = some rake ∧ pay.length = cfg.n ∧ rake.length = cfg.n ∧
+      sumQ pay + sumQ rake = ((sumI s.pot : Int) : Rat) ∧ (∀ x ∈ pay, 0 ≤ x) ∧
+      sumQ ((List.range cfg.n).map s.pnl) = - sumQ rake := by
+  obtain ⟨pay, rake, hp, hr, l1, l2, hsum, hnn⟩ := reachable_complete_B hw hfl hv hB h hc
+  have hi := reachable_inv hw hv h
+  refine ⟨pay, rake, hp, hr, l1, l2, hsum, hnn, ?_⟩
+  have hn := hi.cfgOf.n
+  have := sum_pnl s pay hp (by rw [l1, hn]) (by rw [hn]; exact hi.chips.stacks_len)
+    (by rw [hi.cfgOf.startingStacks, hn]; exact hv.stacks_len)
+  rw [hn] at this
+  rw [this, hi.cfgOf.startingStacks]
+  have ht := hi.chips.total
+  have e : sumI s.stacks - sumI cfg.startingStacks = - sumI s.pot := by omega
+  rw [e]
+  push_cast
+  linarith
+
+/-- **`completion` for IEEE doubles**: the engine run with `fl := Float53.rnd` (round to nearest, ties to even, 53-bit
+significand — what the native driver executes) settles every hand exactly, provided the chips on the table do not
+exceed `2^53` -/
+theorem completion_f53 (env : Env) (cfg : Cfg) (hw : env.w = World.std) (hfl : env.fl = Float53.rnd) (hv : cfg.Valid)
+    (hB : sumI cfg.startingStacks ≤ 2 ^ 53) {s : State} (h : Reachable env cfg s) (hc : s.complete = true) :
+    ∃ pay rake, s.payouts = some pay ∧ s.rakePaid = some rake ∧ pay.length = cfg.n ∧ rake.length = cfg.n ∧
+      sumQ pay + sumQ rake = ((sumI s.pot : Int) : Rat) ∧ (∀ x ∈ pay, 0 ≤ x) ∧
+      sumQ ((List.range cfg.n).map s.pnl) = - sumQ rake :=
+  completion_B env cfg hw (by rw [hfl]; exact C14.flSpecB_f53) hv hB h hc
+
 /-- while the hand is in progress nothing has been paid out -/
 theorem in_progress_no_payouts (env : Env) (cfg : Cfg) {s : State} (h : Reachable env cfg s)
     (hc : s.complete = false) : s.payouts = none ∧ s.rakePaid = none :=
